@@ -669,7 +669,19 @@ def shards(tier):
     return [{"i": i} for i in range(16)]
 
 
+def _bound_shrinking():
+    """Cap the number of successful shrink steps (count-based, deterministic) so that a failing run ends quickly;
+    the default (500 steps / 5 minutes per shard) costs minutes with a ~10 ms oracle."""
+    try:
+        import hypothesis.internal.conjecture.engine as eng
+
+        eng.MAX_SHRINKS = 120
+    except Exception:  # noqa: BLE001 - internal knob missing: keep Hypothesis' default
+        pass
+
+
 def run_shard(spec, ctx):
+    _bound_shrinking()
     rec = core.Rec()
     if ctx.index == 0:
         # the hand-picked near-literals, each as plain template text and as a string variable (every tier)
